@@ -45,10 +45,14 @@ func runC11(c *eng.Ctx) {
 			}
 			return true
 		})
-		miss := g.FactEdge(func(fc eng.Fact) bool { return !fc.Pos && fc.Y == nil && hasVar != nil && eng.SelObj(info, fc.X) == hasVar })
+		miss := g.FactEdge(func(fc eng.Fact) bool {
+			return !fc.Pos && fc.Y == nil && hasVar != nil && eng.SelObj(info, fc.X) == hasVar
+		})
 		var addFunc, store *eng.GNode
 		for _, n := range g.Nodes {
-			if len(g.CallsAt(n, func(o types.Object, _ *ast.CallExpr) bool { return o != nil && (o.Name() == "AddFunc" || o.Name() == "AddJob" || o.Name() == "Schedule") })) > 0 {
+			if len(g.CallsAt(n, func(o types.Object, _ *ast.CallExpr) bool {
+				return o != nil && (o.Name() == "AddFunc" || o.Name() == "AddJob" || o.Name() == "Schedule")
+			})) > 0 {
 				addFunc = n
 			}
 			if as, ok := n.Node.(*ast.AssignStmt); ok && len(as.Lhs) == 1 {
@@ -103,7 +107,9 @@ func runC11(c *eng.Ctx) {
 			}
 			return true
 		})
-		present := g.FactEdge(func(fc eng.Fact) bool { return fc.Pos && fc.Y == nil && hasID != nil && eng.SelObj(info, fc.X) == hasID })
+		present := g.FactEdge(func(fc eng.Fact) bool {
+			return fc.Pos && fc.Y == nil && hasID != nil && eng.SelObj(info, fc.X) == hasID
+		})
 		ex := g.MustPassToExit(eng.Query{FromEntry: true, AvoidEdge: present}, recordsID)
 		r1.Check(ex == nil, f.Key+" id-recorded", f.Decl.Pos(), "the binding id is recorded for the crontab on every path", "Add can return without recording the binding id for the crontab: removing another binding of the same crontab stops the job while this binding is still registered")
 	}
@@ -150,8 +156,12 @@ func runC11(c *eng.Ctx) {
 				cl := builtinCall(info, x, "len")
 				return ok && eq && isC && v == 0 && cl != nil && eng.MentionsField(info, cl.Args[0], ids, false)
 			})
-			known := g.FactEdge(func(fc eng.Fact) bool { return fc.Pos && fc.Y == nil && hasID != nil && eng.SelObj(info, fc.X) == hasID })
-			knownEntry := g.FactEdge(func(fc eng.Fact) bool { return fc.Pos && fc.Y == nil && hasEntry != nil && eng.SelObj(info, fc.X) == hasEntry })
+			known := g.FactEdge(func(fc eng.Fact) bool {
+				return fc.Pos && fc.Y == nil && hasID != nil && eng.SelObj(info, fc.X) == hasID
+			})
+			knownEntry := g.FactEdge(func(fc eng.Fact) bool {
+				return fc.Pos && fc.Y == nil && hasEntry != nil && eng.SelObj(info, fc.X) == hasEntry
+			})
 			for _, n := range []*eng.GNode{cronRemove, delEntry} {
 				what := "cron.Remove"
 				if n == delEntry {
